@@ -319,7 +319,7 @@ func c19EntrySkips(entry, key string) bool {
 	return false
 }
 
-var c19ReservedEverywhere = []string{"_id", "_rev", "_revisions", "_sync", "_purged"}
+var c19ReservedEverywhere = []string{"_id", "_rev", "_revisions", "_cv", "_sync", "_purged"}
 
 type c19Accepted struct {
 	entry   string
